@@ -9,10 +9,10 @@ M = "vlib.harness.h_prog"
 
 
 def drive(r, programs, n_strict, func, twin, label, cmd, tables, tier, chunk=12, pct=None, static=None, langs="python",
-          strict_vocabulary=False):
+          strict_vocabulary=False, key=""):
     """programs[:n_strict] are sliced in chunks; programs[n_strict:] (witnesses) one per slice."""
     batch, info = tbatch.build_batch(programs, cmd=cmd, tables=tables, langs=langs)
-    r.extra["lian_run"] = {k: info[k] for k in ("rc", "wall_s", "cmd")}
+    r.extra["lian_run" + key] = {k: info[k] for k in ("rc", "wall_s", "cmd")}
     if info["rc"] != 0 or not any(p["rows"] for p in programs):
         r.harness_error(f"lian {cmd} failed on the batch (rc={info['rc']}): {info['log_tail'][-600:]}")
         return None
@@ -23,8 +23,8 @@ def drive(r, programs, n_strict, func, twin, label, cmd, tables, tier, chunk=12,
         screen = h.prescreen(path)
         unsupported = {i: s for i, s in enumerate(screen) if s != "ok"}
         empty = [i for i, p in enumerate(programs) if not p["rows"]]
-        r.extra["programs_generated"] = len(programs)
-        r.extra["not_executable_by_reference_interpreter"] = {programs[i]["name"]: s for i, s in unsupported.items()}
+        r.extra["programs_generated" + key] = len(programs)
+        r.extra["not_executable_by_reference_interpreter" + key] = {programs[i]["name"]: s for i, s in unsupported.items()}
         for i in empty:
             r.harness_error(f"lian emitted no GIR for {programs[i]['name']}")
         skip = sorted(set(unsupported) | set(empty))
@@ -54,8 +54,8 @@ def drive(r, programs, n_strict, func, twin, label, cmd, tables, tier, chunk=12,
                 elif ob["status"] == "CONFIRMED":
                     covered |= set(range(s["range"][0], s["range"][1])) - set(s.get("skip", []))
             pending = nxt
-        r.counters["programs"] = len(programs) - len(skip)
-        r.extra["programs_confirmed_for_all_arguments"] = len(covered)
+        r.counters["programs"] += len(programs) - len(skip)
+        r.extra["programs_confirmed_for_all_arguments" + key] = len(covered)
         for p in (programs[0], programs[min(len(programs) - 1, n_strict // 2)], programs[-1]):
             r.add_sample({"name": p["name"], "source": p["src"], "gir_rows": len(p["rows"])})
     finally:
